@@ -48,6 +48,10 @@ pub fn gen_name(rng: &mut Rng, style: NameStyle, raw: bool, taken: &BTreeSet<Str
                 if rng.chance(1, 6) {
                     s.push_str(*rng.pick(&[".txt", ".rs", "~", ".d"]));
                 }
+                if raw && rng.chance(1, 4) {
+                    let at = rng.usize_below(s.len() + 1);
+                    s.insert(at, crate::tree::RAW_SENTINEL);
+                }
                 s
             }
             NameStyle::Long => {
